@@ -617,6 +617,9 @@ func (s *scen) deliver(b *rBlock) string {
 		return out
 	}
 	s.observe("deliver", out, rep, full)
+	if s.moveFailed {
+		s.farthestCheck()
+	}
 	return out
 }
 
@@ -703,6 +706,7 @@ func (s *scen) undoFilesCheck() {
 	if s.dead {
 		return
 	}
+	s.farthestCheck()
 	rep := o.MustAsk("undochk")
 	if !strings.HasPrefix(rep, "ok") {
 		s.tieFail("tie-undochk", "model: undo data missing within the unwind window: "+rep)
